@@ -54,10 +54,7 @@ PROPS = {
             "Knot types (Rust-derived recursive types) do not cross the protocol; they are covered through TypeContainer environments in C01/C12",
             "service_compatible is exercised on sources printed by candid::pretty::candid::compile; its parser/checker are the subject of C12-C14",
         ],
-        "partial": [
-            "subAlg_sound / subAlg_complete (algorithm = greatest fixed point for every input and memo history) are not yet proved for the full language; the proved theorems cover the specification relation (monotone rule functional, fixed point, coinduction, reflexivity, top/bottom) and the probe discipline; agreement of the algorithm with the greatest fixed point is established by the correspondence only",
-            "transitivity is false in the specification itself (record {f:nat} <: record {} <: record {f:null}); not claimed",
-        ],
+        "partial": ["completeness (every subtyping of the specification is accepted, given enough depth budget) and the upgrade check service_compatible / merge_type are established by correspondence with the executable greatest-fixed-point oracle only; theorems now cover soundness of the algorithm for all environments whose names resolve: accepted from an empty memo, accepted after any history of successful checks, and for whole sequences sharing one memo"],
     },
     "C02": {
         "profiles": ["debug"],
